@@ -111,6 +111,7 @@ Section Proofs.
   Variable jeqb : J -> J -> bool.
   Variable vj : Z -> Z -> J -> V.
   Variable cv : J -> J.
+  Variable cvi : J -> J.
   Variable fmt_to : Z -> Z.
   Variable cv_iter : bool.
 
@@ -118,10 +119,10 @@ Section Proofs.
   Notation state := (state V J).
   Notation result := (result V J).
   Notation jdv := (jdv J).
-  Notation stepq := (step V J jeqb vj cv fmt_to cv_iter).
-  Notation runq := (run V J jeqb vj cv fmt_to cv_iter).
-  Notation S := (step V J jeqb vj cv fmt_to cv_iter quirks_off).
-  Notation runS := (run V J jeqb vj cv fmt_to cv_iter quirks_off).
+  Notation stepq := (step V J jeqb vj cv cvi fmt_to cv_iter).
+  Notation runq := (run V J jeqb vj cv cvi fmt_to cv_iter).
+  Notation S := (step V J jeqb vj cv cvi fmt_to cv_iter quirks_off).
+  Notation runS := (run V J jeqb vj cv cvi fmt_to cv_iter quirks_off).
   Notation flat := (flat J).
   Notation is_js := (is_js J).
   Notation getobj := (getobj V J).
@@ -132,14 +133,23 @@ Section Proofs.
   Notation root_obj := (root_obj V J vj).
 
   (* scale 0 is the scale of the root, scale 1 its conversion *)
-  Definition cvs (s : Z) (j : J) : J := if s =? 0 then j else cv j.
+  (* Conv s e j: the jd pair j (of scale s) is the root epoch e taken through a chain of scale conversions
+     (scale 0 is the scale of the root; the two conversions are not exact inverses of each other, so an epoch
+     that went to scale 1 and back may differ from e in its last bits - it is still the image of e) *)
+  Inductive Conv : Z -> J -> J -> Prop :=
+  | Conv_root e : Conv 0 e e
+  | Conv_to e j : Conv 0 e j -> Conv 1 e (cv j)
+  | Conv_back e j : Conv 1 e j -> Conv 0 e (cvi j).
 
-  (* an array is aligned with the root R: one list of source positions selects its jd pairs, its values
-     are the values of exactly these jd pairs, and its shape flags agree *)
+  Definition From (R : list J) (s : Z) (i : nat) (j : J) : Prop :=
+    exists e, nth_error R i = Some e /\ Conv s e j.
+
+  (* an array is aligned with the root R: one list of source positions gives its jd pairs (each the conversion of
+     the root epoch at that position into the scale of the array), its values are the values of exactly these
+     jd pairs, and its shape flags agree *)
   Definition Aligned (R : list J) (o : obj) : Prop :=
-    exists (src : list nat) (es : list J),
-      Sel R src es /\
-      flat (o_jd _ _ o) = map (cvs (o_scale _ _ o)) es /\
+    exists src : list nat,
+      Forall2 (From R (o_scale _ _ o)) src (flat (o_jd _ _ o)) /\
       o_vals _ _ o = map (vj (o_scale _ _ o) (o_fmt _ _ o)) (flat (o_jd _ _ o)) /\
       o_scalar _ _ o = is_js (o_jd _ _ o) /\
       o_sl _ _ o = None.
@@ -155,7 +165,7 @@ Section Proofs.
     Aligned R o ->
     length (o_vals _ _ o) = length (flat (o_jd _ _ o)) /\ olen _ _ o = length (flat (o_jd _ _ o)).
   Proof.
-    intros (src & es & HS & Hj & Hv & Hsc & _). unfold olen.
+    intros (src & HS & Hv & Hsc & _). unfold olen.
     rewrite Hv, map_length. split; [reflexivity|].
     rewrite Hsc. destruct (o_jd _ _ o); reflexivity.
   Qed.
@@ -164,18 +174,18 @@ Section Proofs.
     Aligned R o -> exists src, Forall (fun s => (s < length R)%nat) src /\ olen _ _ o = length src.
   Proof.
     intros HA. destruct (aligned_lengths _ _ HA) as [_ Hl].
-    destruct HA as (src & es & HS & Hj & _). exists src. split.
-    - clear -HS. induction HS; constructor; auto. apply nth_error_Some. congruence.
-    - rewrite Hl, Hj, map_length. symmetry. eapply Forall2_len; eauto.
+    destruct HA as (src & HS & _). exists src. split.
+    - clear -HS. induction HS as [|i j ? ? (e & He & _)]; constructor; auto. apply nth_error_Some. congruence.
+    - rewrite Hl. symmetry. eapply Forall2_len; eauto.
   Qed.
 
-  Lemma mk_aligned R sc vs jd f s src es :
-    Sel R src es -> flat jd = map (cvs s) es -> vs = map (vj s f) (flat jd) -> sc = is_js jd ->
+  Lemma mk_aligned R sc vs jd f s src :
+    Forall2 (From R s) src (flat jd) -> vs = map (vj s f) (flat jd) -> sc = is_js jd ->
     Aligned R (mkObj V J sc vs jd f s None).
-  Proof. intros. exists src, es. cbn. auto. Qed.
+  Proof. intros. exists src. cbn. auto. Qed.
 
   Lemma aligned_vals R o : Aligned R o -> o_vals _ _ o = map (vj (o_scale _ _ o) (o_fmt _ _ o)) (flat (o_jd _ _ o)).
-  Proof. intros (_ & _ & _ & _ & Hv & _). exact Hv. Qed.
+  Proof. intros (_ & _ & Hv & _). exact Hv. Qed.
 
   (* ---------------------------------------------------------------- reductions for the specification *)
   Lemma new_obj_off st o :
@@ -202,20 +212,16 @@ Section Proofs.
   (* ---------------------------------------------------------------- alignment is preserved *)
   Lemma aligned_index_jd R o it r :
     Aligned R o -> index_jd J (o_jd _ _ o) it = Some r ->
-    exists src' es', Sel R src' es' /\ flat r = map (cvs (o_scale _ _ o)) es' /\
-                     index (flat (o_jd _ _ o)) it = Some (flat r) /\ is_js r = is_int it.
+    exists src', Forall2 (From R (o_scale _ _ o)) src' (flat r) /\
+                 index (flat (o_jd _ _ o)) it = Some (flat r) /\ is_js r = is_int it.
   Proof.
-    intros (src & es & HS & Hj & Hv & Hsc & Hsl) H.
+    intros (src & HS & Hv & Hsc & Hsl) H.
     unfold index_jd in H. destruct (o_jd _ _ o) as [j|l] eqn:Ejd; [discriminate|].
-    cbn in Hj. destruct (index l it) as [r'|] eqn:Ei; [|discriminate].
-    assert (Hi := Ei). rewrite Hj, index_map in Hi.
-    destruct (index es it) as [es'|] eqn:Ee; [|discriminate]. cbn in Hi. inversion Hi; subst r'.
-    destruct (index_Sel _ _ _ _ _ HS Ee) as (src' & _ & HS').
-    exists src', es'. cbn [flat C04_TimeArray.flat].
-    destruct (is_int it) eqn:Eint.
-    - destruct (map (cvs (o_scale V J o)) es') as [|j [|]] eqn:Em; try discriminate.
-      inversion H; subst. cbn. repeat split; auto.
-    - inversion H; subst. cbn. repeat split; auto.
+    cbn [flat C04_TimeArray.flat] in *. destruct (index l it) as [r'|] eqn:Ei; [|discriminate].
+    destruct (index_Sel _ _ _ _ _ HS Ei) as (src' & _ & HS').
+    exists src'. destruct (is_int it) eqn:Eint.
+    - destruct r' as [|j [|]]; try discriminate. inversion H; subst. cbn. auto.
+    - inversion H; subst. cbn. auto.
   Qed.
 
   Definition st_aligned (R : list J) (st : state) : Prop := Forall (Aligned R) (heap _ _ st).
@@ -231,107 +237,92 @@ Section Proofs.
 
   Ltac fin_new R :=
     rewrite new_obj_off; intros HH; inversion HH; subst; split; [apply st_aligned_push; auto|cbn; auto].
+  Ltac fin_err := intros HH; inversion HH; subst; split; cbn; auto.
+
+  Lemma sliced_aligned R o it r0 vs :
+    Aligned R o -> index_jd J (o_jd _ _ o) it = Some r0 -> index (o_vals _ _ o) it = Some vs ->
+    Aligned R (mkObj V J (is_int it) vs r0 (o_fmt _ _ o) (o_scale _ _ o) None).
+  Proof.
+    intros Ho Ej Ev. destruct (aligned_index_jd _ _ _ _ Ho Ej) as (src' & HS' & Hidx & Hjs).
+    eapply mk_aligned; [exact HS'| |now rewrite Hjs].
+    rewrite (aligned_vals _ _ Ho), index_map, Hidx in Ev. cbn in Ev. now inversion Ev.
+  Qed.
 
   Lemma step_get_aligned R st k it st' r :
     st_aligned R st -> do_get V J jeqb vj quirks_off st k it = (st', r) -> st_aligned R st' /\ res_aligned R r.
   Proof.
-    intros HA. unfold do_get. destruct (getobj st k) as [[h o]|] eqn:G.
-    2:{ intros H; inversion H; subst; split; cbn; auto. }
+    intros HA. unfold do_get. destruct (getobj st k) as [[h o]|] eqn:G; [|fin_err].
     pose proof (getobj_aligned _ _ _ _ _ HA G) as Ho.
-    destruct (o_scalar _ _ o). { intros H; inversion H; subst; split; cbn; auto. }
+    destruct (o_scalar _ _ o); [fin_err|].
     cbn [q_side quirks_off].
-    destruct (index_jd J (o_jd _ _ o) it) as [r0|] eqn:Ej.
-    2:{ intros H; inversion H; subst; split; cbn; auto. }
-    destruct (aligned_index_jd _ _ _ _ Ho Ej) as (src' & es' & HS' & Hf & Hidx & Hjs).
+    destruct (index_jd J (o_jd _ _ o) it) as [r0|] eqn:Ej; [|fin_err].
+    destruct (aligned_index_jd _ _ _ _ Ho Ej) as (src' & HS' & Hidx & Hjs).
     destruct (is_int it) eqn:Eint.
     - assert (Al : Aligned R (from_jds (o_scale _ _ o) (o_fmt _ _ o) r0)).
-      { unfold C04_TimeArray.from_jds. eapply mk_aligned; [exact HS'|exact Hf|reflexivity|reflexivity]. }
+      { unfold C04_TimeArray.from_jds. eapply mk_aligned; [exact HS'|reflexivity|reflexivity]. }
       fin_new R.
-    - destruct (index (o_vals _ _ o) it) as [vs|] eqn:Ev.
-      2:{ intros H; inversion H; subst; split; cbn; auto. }
-      assert (Al : Aligned R (mkObj V J false vs r0 (o_fmt _ _ o) (o_scale _ _ o) None)).
-      { eapply mk_aligned; [exact HS'|exact Hf| |now rewrite Hjs].
-        rewrite (aligned_vals _ _ Ho), index_map, Hidx in Ev. cbn in Ev. now inversion Ev. }
-      fin_new R.
+    - destruct (index (o_vals _ _ o) it) as [vs|] eqn:Ev; [|fin_err].
+      pose proof (sliced_aligned _ _ _ _ _ Ho Ej Ev) as Al. rewrite Eint in Al. fin_new R.
   Qed.
 
   Lemma step_gett_aligned R st k it st' r :
     st_aligned R st -> do_gett V J jeqb quirks_off st k it = (st', r) -> st_aligned R st' /\ res_aligned R r.
   Proof.
-    intros HA. unfold do_gett. destruct (getobj st k) as [[h o]|] eqn:G.
-    2:{ intros H; inversion H; subst; split; cbn; auto. }
+    intros HA. unfold do_gett. destruct (getobj st k) as [[h o]|] eqn:G; [|fin_err].
     pose proof (getobj_aligned _ _ _ _ _ HA G) as Ho.
-    destruct (o_scalar _ _ o || negb (is_slice it)) eqn:Ec. { intros H; inversion H; subst; split; cbn; auto. }
+    destruct (o_scalar _ _ o || negb (is_slice it)) eqn:Ec; [fin_err|].
     unfold finalize_jd; cbn [q_side quirks_off].
-    destruct (index (o_vals _ _ o) it) as [vs|] eqn:Ev.
-    2:{ intros H; inversion H; subst; split; cbn; auto. }
-    destruct (index_jd J (o_jd _ _ o) it) as [r0|] eqn:Ej.
-    2:{ intros H; inversion H; subst; split; cbn; auto. }
-    destruct (aligned_index_jd _ _ _ _ Ho Ej) as (src' & es' & HS' & Hf & Hidx & Hjs).
+    destruct (index (o_vals _ _ o) it) as [vs|] eqn:Ev; [|fin_err].
+    destruct (index_jd J (o_jd _ _ o) it) as [r0|] eqn:Ej; [|fin_err].
     assert (Eint : is_int it = false) by (destruct it; cbn in *; auto; rewrite orb_true_r in Ec; discriminate).
-    assert (Al : Aligned R (mkObj V J false vs r0 (o_fmt _ _ o) (o_scale _ _ o) None)).
-    { eapply mk_aligned; [exact HS'|exact Hf| |now rewrite Hjs].
-      rewrite (aligned_vals _ _ Ho), index_map, Hidx in Ev. cbn in Ev. now inversion Ev. }
-    fin_new R.
+    pose proof (sliced_aligned _ _ _ _ _ Ho Ej Ev) as Al. rewrite Eint in Al. fin_new R.
   Qed.
+
+  Lemma same_aligned R o :
+    Aligned R o -> Aligned R (mkObj V J (o_scalar _ _ o) (o_vals _ _ o) (o_jd _ _ o) (o_fmt _ _ o) (o_scale _ _ o) None).
+  Proof. intros (src & ? & ? & ? & ?). eapply mk_aligned; eauto. Qed.
 
   Lemma step_view_aligned R st k st' r :
     st_aligned R st -> do_view V J jeqb quirks_off st k = (st', r) -> st_aligned R st' /\ res_aligned R r.
   Proof.
-    intros HA. unfold do_view. destruct (getobj st k) as [[h o]|] eqn:G.
-    2:{ intros H; inversion H; subst; split; cbn; auto. }
-    pose proof (getobj_aligned _ _ _ _ _ HA G) as Ho.
-    unfold finalize_jd; cbn [q_side quirks_off].
-    assert (Al : Aligned R (mkObj V J (o_scalar _ _ o) (o_vals _ _ o) (o_jd _ _ o) (o_fmt _ _ o) (o_scale _ _ o) None)).
-    { destruct Ho as (src & es & ? & ? & ? & ? & ?). eapply mk_aligned; eauto. }
-    fin_new R.
+    intros HA. unfold do_view. destruct (getobj st k) as [[h o]|] eqn:G; [|fin_err].
+    pose proof (same_aligned _ _ (getobj_aligned _ _ _ _ _ HA G)) as Al.
+    unfold finalize_jd; cbn [q_side quirks_off]. fin_new R.
   Qed.
 
   Lemma step_copy_aligned R st k st' r :
     st_aligned R st -> do_copy V J jeqb quirks_off st k = (st', r) -> st_aligned R st' /\ res_aligned R r.
   Proof.
-    intros HA. unfold do_copy. destruct (getobj st k) as [[h o]|] eqn:G.
-    2:{ intros H; inversion H; subst; split; cbn; auto. }
-    pose proof (getobj_aligned _ _ _ _ _ HA G) as Ho.
-    cbn [q_rebuild quirks_off andb].
-    assert (Al : Aligned R (mkObj V J (o_scalar _ _ o) (o_vals _ _ o) (o_jd _ _ o) (o_fmt _ _ o) (o_scale _ _ o) None)).
-    { destruct Ho as (src & es & ? & ? & ? & ? & ?). eapply mk_aligned; eauto. }
-    fin_new R.
+    intros HA. unfold do_copy. destruct (getobj st k) as [[h o]|] eqn:G; [|fin_err].
+    pose proof (same_aligned _ _ (getobj_aligned _ _ _ _ _ HA G)) as Al.
+    cbn [q_rebuild quirks_off andb]. fin_new R.
   Qed.
 
   Lemma step_iter_aligned R st k st' r :
     st_aligned R st -> do_iter V J jeqb vj quirks_off st k = (st', r) -> st_aligned R st' /\ res_aligned R r.
   Proof.
-    intros HA. unfold do_iter. destruct (getobj st k) as [[h o]|] eqn:G.
-    2:{ intros H; inversion H; subst; split; cbn; auto. }
+    intros HA. unfold do_iter. destruct (getobj st k) as [[h o]|] eqn:G; [|fin_err].
     pose proof (getobj_aligned _ _ _ _ _ HA G) as Ho.
-    destruct (o_scalar _ _ o). { intros H; inversion H; subst; split; cbn; auto. }
-    destruct (o_jd _ _ o) as [j|l] eqn:Ejd. { intros H; inversion H; subst; split; cbn; auto. }
+    destruct (o_scalar _ _ o); [fin_err|].
+    destruct (o_jd _ _ o) as [j|l] eqn:Ejd; [fin_err|].
     cbn [q_side quirks_off]. rewrite observe_all_off. intros H; inversion H; subst. split; [assumption|].
     cbn. rewrite Forall_map, Forall_map. cbn.
-    destruct Ho as (src & es & HS & Hj & _). rewrite Ejd in Hj. cbn in Hj. subst l.
+    destruct Ho as (src & HS & _). rewrite Ejd in HS. cbn in HS.
     clear -HS. induction HS; cbn; constructor; auto.
-    unfold C04_TimeArray.from_jds. eapply (mk_aligned _ _ _ _ _ _ [x] [y]); try reflexivity.
+    unfold C04_TimeArray.from_jds. eapply (mk_aligned _ _ _ _ _ _ [x]); try reflexivity.
     repeat constructor; auto.
   Qed.
 
   Lemma step_subset_aligned R st k it st' r :
     st_aligned R st -> do_subset V J jeqb quirks_off st k it = (st', r) -> st_aligned R st' /\ res_aligned R r.
   Proof.
-    intros HA. unfold do_subset. destruct (getobj st k) as [[h o]|] eqn:G.
-    2:{ intros H; inversion H; subst; split; cbn; auto. }
+    intros HA. unfold do_subset. destruct (getobj st k) as [[h o]|] eqn:G; [|fin_err].
     pose proof (getobj_aligned _ _ _ _ _ HA G) as Ho.
-    destruct (o_scalar _ _ o). { intros H; inversion H; subst; split; cbn; auto. }
-    destruct (index (o_vals _ _ o) it) as [vs|] eqn:Ev.
-    2:{ intros H; inversion H; subst; split; cbn; auto. }
-    destruct (index_jd J (o_jd _ _ o) it) as [r0|] eqn:Ej.
-    2:{ intros H; inversion H; subst; split; cbn; auto. }
+    destruct (o_scalar _ _ o); [fin_err|].
+    destruct (index (o_vals _ _ o) it) as [vs|] eqn:Ev; [|fin_err].
+    destruct (index_jd J (o_jd _ _ o) it) as [r0|] eqn:Ej; [|fin_err].
     cbn [q_rebuild quirks_off andb].
-    destruct (aligned_index_jd _ _ _ _ Ho Ej) as (src' & es' & HS' & Hf & Hidx & Hjs).
-    assert (Al : Aligned R (mkObj V J (is_int it) vs r0 (o_fmt _ _ o) (o_scale _ _ o) None)).
-    { eapply mk_aligned; [exact HS'|exact Hf| |now rewrite Hjs].
-      rewrite (aligned_vals _ _ Ho), index_map, Hidx in Ev. cbn in Ev. now inversion Ev. }
-    fin_new R.
+    pose proof (sliced_aligned _ _ _ _ _ Ho Ej Ev) as Al. fin_new R.
   Qed.
 
   Lemma convert_anon_off st h o :
@@ -339,14 +330,37 @@ Section Proofs.
     (st, Some (from_jds 1 (fmt_to (o_fmt _ _ o)) (map_jdv J cv (o_jd _ _ o)))).
   Proof. reflexivity. Qed.
 
+  Lemma convert_back_off st h o :
+    convert_back V J jeqb vj cvi cv_iter quirks_off st h o =
+    (st, Some (from_jds 0 (o_fmt _ _ o) (map_jdv J cvi (o_jd _ _ o)))).
+  Proof. reflexivity. Qed.
+
+  Lemma Forall2_imp {A B} (P Q : A -> B -> Prop) l1 l2 :
+    (forall a b, P a b -> Q a b) -> Forall2 P l1 l2 -> Forall2 Q l1 l2.
+  Proof. intros HPQ H; induction H; constructor; auto. Qed.
+
+  Lemma Forall2_map_r {A B C} (P : A -> B -> Prop) (Q : A -> C -> Prop) (f : B -> C) l1 l2 :
+    (forall a b, P a b -> Q a (f b)) -> Forall2 P l1 l2 -> Forall2 Q l1 (map f l2).
+  Proof. intros HPQ H; induction H; cbn; constructor; auto. Qed.
+
   Lemma converted_aligned R o :
     Aligned R o -> o_scale _ _ o = 0 -> Aligned R (from_jds 1 (fmt_to (o_fmt _ _ o)) (map_jdv J cv (o_jd _ _ o))).
   Proof.
-    intros (src & es & HS & Hj & Hv & Hsc & Hsl) E0.
-    unfold C04_TimeArray.from_jds. eapply (mk_aligned _ _ _ _ _ _ src es); [exact HS| |reflexivity|reflexivity].
-    rewrite E0 in Hj. destruct (o_jd _ _ o); cbn in *.
-    + destruct es as [|e [|]]; try discriminate. cbn in *. inversion Hj; subst. reflexivity.
-    + subst l. rewrite map_map. apply map_ext. intros a. reflexivity.
+    intros (src & HS & Hv & Hsc & Hsl) E0. rewrite E0 in HS.
+    unfold C04_TimeArray.from_jds. eapply (mk_aligned _ _ _ _ _ _ src); [|reflexivity|reflexivity].
+    assert (G : Forall2 (From R 1) src (map cv (flat (o_jd _ _ o)))).
+    { eapply Forall2_map_r; [|exact HS]. intros i j (e & He & Hc). exists e. split; auto. now constructor. }
+    destruct (o_jd _ _ o); exact G.
+  Qed.
+
+  Lemma converted_back_aligned R o :
+    Aligned R o -> o_scale _ _ o = 1 -> Aligned R (from_jds 0 (o_fmt _ _ o) (map_jdv J cvi (o_jd _ _ o))).
+  Proof.
+    intros (src & HS & Hv & Hsc & Hsl) E1. rewrite E1 in HS.
+    unfold C04_TimeArray.from_jds. eapply (mk_aligned _ _ _ _ _ _ src); [|reflexivity|reflexivity].
+    assert (G : Forall2 (From R 0) src (map cvi (flat (o_jd _ _ o)))).
+    { eapply Forall2_map_r; [|exact HS]. intros i j (e & He & Hc). exists e. split; auto. now constructor. }
+    destruct (o_jd _ _ o); exact G.
   Qed.
 
   Lemma ins_aligned R st a b pos st' r :
@@ -354,67 +368,55 @@ Section Proofs.
     ins V J jeqb quirks_off st a b pos = (st', r) -> st_aligned R st' /\ res_aligned R r.
   Proof.
     intros HA Hoa Hob Es Ef. unfold ins.
-    destruct (insert_at (o_vals _ _ a) pos (o_vals _ _ b)) as [vs|] eqn:Ev.
-    2:{ intros H; inversion H; subst; split; cbn; auto. }
-    destruct (insert_at (flat (o_jd _ _ a)) pos (flat (o_jd _ _ b))) as [js|] eqn:Ej.
-    2:{ intros H; inversion H; subst; split; cbn; auto. }
-    destruct Hoa as (sa & ea & HSa & Hja & Hva & _ & _).
-    destruct Hob as (sb & eb & HSb & Hjb & Hvb & _ & _).
+    destruct (insert_at (o_vals _ _ a) pos (o_vals _ _ b)) as [vs|] eqn:Ev; [|fin_err].
+    destruct (insert_at (flat (o_jd _ _ a)) pos (flat (o_jd _ _ b))) as [js|] eqn:Ej; [|fin_err].
+    destruct Hoa as (sa & HSa & Hva & _ & _).
+    destruct Hob as (sb & HSb & Hvb & _ & _).
     assert (Al : Aligned R (mkObj V J false vs (JA js) (o_fmt _ _ a) (o_scale _ _ a) None)).
-    { rewrite Hja, Hjb, <- Es, insert_at_map in Ej.
-      destruct (insert_at ea pos eb) as [es'|] eqn:Ee; [|discriminate]. cbn in Ej. inversion Ej; subst js.
-      destruct (insert_at_Sel _ _ _ _ _ _ _ HSa HSb Ee) as (s' & _ & HS').
-      eapply (mk_aligned _ _ _ _ _ _ s' es'); [exact HS'|reflexivity| |reflexivity]. cbn [flat C04_TimeArray.flat].
-      rewrite Hva, Hvb, <- Es, <- Ef, Hja, Hjb, <- Es, insert_at_map, insert_at_map, Ee in Ev. cbn in Ev.
-      now inversion Ev. }
+    { rewrite <- Es in HSb.
+      destruct (insert_at_Sel _ _ _ _ _ _ _ HSa HSb Ej) as (s' & _ & HS').
+      eapply (mk_aligned _ _ _ _ _ _ s'); [exact HS'| |reflexivity]. cbn [flat C04_TimeArray.flat].
+      rewrite Hva, Hvb, <- Es, <- Ef, insert_at_map, Ej in Ev. cbn in Ev. now inversion Ev. }
     fin_new R.
   Qed.
 
   Lemma step_insert_aligned R st k pos j st' r :
-    st_aligned R st -> do_insert V J jeqb vj cv fmt_to cv_iter quirks_off st k pos j = (st', r) ->
+    st_aligned R st -> do_insert V J jeqb vj cv cvi fmt_to cv_iter quirks_off st k pos j = (st', r) ->
     st_aligned R st' /\ res_aligned R r.
   Proof.
-    intros HA. unfold do_insert. destruct (getobj st k) as [[ha a]|] eqn:Ga.
-    2:{ intros H; inversion H; subst; split; cbn; auto. }
-    destruct (getobj st j) as [[hb b]|] eqn:Gb.
-    2:{ intros H; inversion H; subst; split; cbn; auto. }
+    intros HA. unfold do_insert. destruct (getobj st k) as [[ha a]|] eqn:Ga; [|fin_err].
+    destruct (getobj st j) as [[hb b]|] eqn:Gb; [|fin_err].
     pose proof (getobj_aligned _ _ _ _ _ HA Ga) as Hoa.
     pose proof (getobj_aligned _ _ _ _ _ HA Gb) as Hob.
-    destruct (o_scalar _ _ a). { intros H; inversion H; subst; split; cbn; auto. }
+    destruct (o_scalar _ _ a); [fin_err|].
     destruct (o_scale _ _ a =? o_scale _ _ b) eqn:Es.
-    - apply Z.eqb_eq in Es. destruct (o_fmt _ _ a =? o_fmt _ _ b) eqn:Ef.
-      2:{ intros H; inversion H; subst; split; cbn; auto. }
+    - apply Z.eqb_eq in Es. destruct (o_fmt _ _ a =? o_fmt _ _ b) eqn:Ef; [|fin_err].
       apply Z.eqb_eq in Ef. now apply ins_aligned.
-    - destruct ((o_scale _ _ a =? 1) && (o_scale _ _ b =? 0) && negb (o_scalar _ _ b)) eqn:Ec.
-      2:{ intros H; inversion H; subst; split; cbn; auto. }
-      apply andb_prop in Ec as [Ec _]. apply andb_prop in Ec as [E1 E0].
-      apply Z.eqb_eq in E1. apply Z.eqb_eq in E0.
-      rewrite convert_anon_off.
-      destruct (o_fmt _ _ a =? o_fmt _ _ (from_jds 1 (fmt_to (o_fmt _ _ b)) (map_jdv J cv (o_jd _ _ b)))) eqn:Ef.
-      2:{ intros H; inversion H; subst; split; cbn; auto. }
-      apply Z.eqb_eq in Ef. apply ins_aligned; auto using converted_aligned.
+    - destruct ((o_scale _ _ a =? 1) && (o_scale _ _ b =? 0)) eqn:Ec.
+      + apply andb_prop in Ec as [E1 E0]. apply Z.eqb_eq in E1. apply Z.eqb_eq in E0.
+        rewrite convert_anon_off.
+        destruct (o_fmt _ _ a =? o_fmt _ _ (from_jds 1 (fmt_to (o_fmt _ _ b)) (map_jdv J cv (o_jd _ _ b)))) eqn:Ef;
+          [|fin_err].
+        apply Z.eqb_eq in Ef. apply ins_aligned; auto using converted_aligned.
+      + destruct ((o_scale _ _ a =? 0) && (o_scale _ _ b =? 1)) eqn:Ec'; [|fin_err].
+        apply andb_prop in Ec' as [E0 E1]. apply Z.eqb_eq in E1. apply Z.eqb_eq in E0.
+        rewrite convert_back_off.
+        destruct (o_fmt _ _ a =? o_fmt _ _ (from_jds 0 (o_fmt _ _ b) (map_jdv J cvi (o_jd _ _ b)))) eqn:Ef; [|fin_err].
+        apply Z.eqb_eq in Ef. apply ins_aligned; auto using converted_back_aligned.
   Qed.
 
   Lemma step_scale_aligned R st k s st' r :
     st_aligned R st -> do_scale V J jeqb vj cv fmt_to cv_iter quirks_off st k s = (st', r) ->
     st_aligned R st' /\ res_aligned R r.
   Proof.
-    intros HA. unfold do_scale. destruct (getobj st k) as [[h o]|] eqn:G.
-    2:{ intros H; inversion H; subst; split; cbn; auto. }
+    intros HA. unfold do_scale. destruct (getobj st k) as [[h o]|] eqn:G; [|fin_err].
     pose proof (getobj_aligned _ _ _ _ _ HA G) as Ho.
     cbn [q_cache q_side quirks_off andb].
     destruct (s =? o_scale _ _ o).
     - rewrite ref_obj_off. rewrite (getobj_In _ _ _ _ G). intros H; inversion H; subst. split; [exact HA|exact Ho].
-    - destruct ((o_scale _ _ o =? 0) && (s =? 1)) eqn:Ec.
-      2:{ intros H; inversion H; subst; split; cbn; auto. }
+    - destruct ((o_scale _ _ o =? 0) && (s =? 1)) eqn:Ec; [|fin_err].
       apply andb_prop in Ec as [E0 E1]. apply Z.eqb_eq in E0.
-      assert (Al : Aligned R (from_jds 1 (fmt_to (o_fmt _ _ o)) (map_jdv J cv (o_jd _ _ o)))).
-      { destruct Ho as (src & es & HS & Hj & Hv & Hsc & Hsl).
-        unfold C04_TimeArray.from_jds. eapply (mk_aligned _ _ _ _ _ _ src es); [exact HS| |reflexivity|reflexivity].
-        rewrite E0 in Hj. destruct (o_jd _ _ o); cbn in *.
-        + destruct es as [|e [|]]; try discriminate. cbn in *. inversion Hj; subst. reflexivity.
-        + subst l. rewrite map_map. apply map_ext. intros a. reflexivity. }
-      fin_new R.
+      pose proof (converted_aligned _ _ Ho E0) as Al. fin_new R.
   Qed.
 
   Lemma step_aligned R st p st' r :
@@ -457,8 +459,8 @@ Section Proofs.
   Proof.
     unfold init; cbn. constructor; [|constructor].
     unfold C04_TimeArray.root_obj, C04_TimeArray.from_jds.
-    eapply (mk_aligned _ _ _ _ _ _ (seq 0 (length R)) R); try reflexivity; [apply seq_Sel|].
-    cbn. symmetry. apply map_id.
+    eapply (mk_aligned _ _ _ _ _ _ (seq 0 (length R))); try reflexivity. cbn.
+    eapply Forall2_imp; [|apply seq_Sel]. intros i e He. exists e. split; [exact He|constructor].
   Qed.
 
   (* every array that can be reached in the specification, whatever the history, is aligned *)
@@ -520,7 +522,7 @@ Section Proofs.
     - unfold do_copy. ext_tac; rewrite new_obj_off in *; ext_tac.
     - unfold do_subset. ext_tac; rewrite new_obj_off in *; ext_tac.
     - unfold do_insert, ins. destruct (getobj st k) as [[ha a]|]; [|ext_tac].
-      destruct (getobj st j) as [[hb b]|]; [|ext_tac]. rewrite convert_anon_off.
+      destruct (getobj st j) as [[hb b]|]; [|ext_tac]. rewrite convert_anon_off, convert_back_off.
       ext_tac; rewrite ?new_obj_off in *; ext_tac.
     - unfold do_scale. cbn [q_side q_cache quirks_off andb]. rewrite ?ref_obj_off.
       ext_tac; rewrite ?new_obj_off, ?ref_obj_off in *; ext_tac.
@@ -577,7 +579,7 @@ Section Proofs.
       repeat match goal with |- context [match ?x with _ => _ end] => destruct x end; rewrite ?new_obj_off; reflexivity.
     - unfold do_insert, ins. rewrite (G k (or_introl eq_refl)), (G j (or_intror (or_introl eq_refl))).
       destruct (getobj st k) as [[ha a]|]; [|reflexivity]. destruct (getobj st j) as [[hb b]|]; [|reflexivity].
-      rewrite !convert_anon_off.
+      rewrite !convert_anon_off, !convert_back_off.
       repeat match goal with |- context [match ?x with _ => _ end] => destruct x end; rewrite ?new_obj_off; reflexivity.
     - unfold do_scale. rewrite (G k (or_introl eq_refl)). cbn [q_side q_cache quirks_off andb].
       destruct (getobj st k) as [[h o]|] eqn:Eg; [|reflexivity].
@@ -619,7 +621,7 @@ Section Proofs.
     - unfold do_copy. wf_tac; rewrite new_obj_off in *; wf_tac.
     - unfold do_subset. wf_tac; rewrite new_obj_off in *; wf_tac.
     - unfold do_insert, ins. destruct (getobj st k) as [[ha a]|]; [|wf_tac].
-      destruct (getobj st j) as [[hb b]|]; [|wf_tac]. rewrite convert_anon_off.
+      destruct (getobj st j) as [[hb b]|]; [|wf_tac]. rewrite convert_anon_off, convert_back_off.
       wf_tac; rewrite ?new_obj_off in *; wf_tac.
     - unfold do_scale. cbn [q_side q_cache quirks_off andb]. rewrite ?ref_obj_off.
       wf_tac; rewrite ?new_obj_off, ?ref_obj_off in *; wf_tac.
@@ -664,8 +666,8 @@ Section Proofs.
   (* ---------------------------------------------------------------- the source's hand-over agrees with the
      specification as long as no view is taken through a stale slot *)
   Definition Qs : quirks := mkQ true false false.
-  Notation Fs := (step V J jeqb vj cv fmt_to cv_iter Qs).
-  Notation runF := (run V J jeqb vj cv fmt_to cv_iter Qs).
+  Notation Fs := (step V J jeqb vj cv cvi fmt_to cv_iter Qs).
+  Notation runF := (run V J jeqb vj cv cvi fmt_to cv_iter Qs).
   Notation set_heap_sl := (set_heap_sl V J).
 
   Definition erase_obj (o : obj) : obj := set_sl V J o None.
@@ -780,6 +782,41 @@ Section Proofs.
     - intros H; now inversion H.
   Qed.
 
+  Lemma side_state st h (o : obj) :
+    shape_ok st ->
+    let st0 := if true && cv_iter && negb (o_scalar _ _ o)
+               then match rev (flat (o_jd _ _ o)) with j :: _ => set_heap_sl st h (Some (JS j)) | [] => st end
+               else st in
+    erase st0 = erase st /\ shape_ok st0.
+  Proof.
+    intros HS. cbn zeta. destruct (true && cv_iter && negb (o_scalar _ _ o)); [|auto].
+    destruct (rev (flat (o_jd _ _ o))); auto using erase_set_heap_sl, shape_set_heap_sl.
+  Qed.
+
+  Lemma convert_anon_side st h (o : obj) :
+    shape_ok st -> o_scalar _ _ o = is_js (o_jd _ _ o) ->
+    exists st0, convert_anon V J jeqb vj cv fmt_to cv_iter Qs st h o =
+                (st0, Some (from_jds 1 (fmt_to (o_fmt _ _ o)) (map_jdv J cv (o_jd _ _ o)))) /\
+                erase st0 = erase st /\ shape_ok st0.
+  Proof.
+    intros HS Hsh. unfold convert_anon. cbn [q_cache q_side Qs].
+    replace (true && cv_iter && negb (o_scalar _ _ o) && is_js (o_jd _ _ o)) with false
+      by (rewrite Hsh; destruct cv_iter, (is_js (o_jd _ _ o)); reflexivity).
+    cbn [andb]. eexists. split; [reflexivity|]. apply (side_state st h o HS).
+  Qed.
+
+  Lemma convert_back_side st h (o : obj) :
+    shape_ok st -> o_scalar _ _ o = is_js (o_jd _ _ o) ->
+    exists st0, convert_back V J jeqb vj cvi cv_iter Qs st h o =
+                (st0, Some (from_jds 0 (o_fmt _ _ o) (map_jdv J cvi (o_jd _ _ o)))) /\
+                erase st0 = erase st /\ shape_ok st0.
+  Proof.
+    intros HS Hsh. unfold convert_back. cbn [q_cache q_side Qs].
+    replace (true && cv_iter && negb (o_scalar _ _ o) && is_js (o_jd _ _ o)) with false
+      by (rewrite Hsh; destruct cv_iter, (is_js (o_jd _ _ o)); reflexivity).
+    cbn [andb]. eexists. split; [reflexivity|]. apply (side_state st h o HS).
+  Qed.
+
   Lemma step_sim st p : shape_ok st -> ok_op st p -> sim (Fs st p) (S (erase st) p).
   Proof.
     intros HS Hok. destruct p; cbn [step].
@@ -844,23 +881,23 @@ Section Proofs.
         destruct (insert_at (o_vals _ _ a) pos (o_vals _ _ b)); [|now apply sim_err].
         destruct (insert_at (flat (o_jd _ _ a)) pos (flat (o_jd _ _ b))); [|now apply sim_err].
         apply sim_new; auto.
-      + destruct ((o_scale _ _ a =? 1) && (o_scale _ _ b =? 0) && negb (o_scalar _ _ b)) eqn:Ec; [|now apply sim_err].
-        pose proof (shape_getobj _ _ _ _ HS Gb) as Hsh.
-        apply andb_prop in Ec as [_ Eb]. apply negb_true_iff in Eb.
-        rewrite convert_anon_off.
-        unfold convert_anon. cbn [q_cache q_side Qs andb o_scalar erase_obj set_sl o_jd o_vals o_fmt o_scale].
-        rewrite Eb in Hsh. rewrite <- Hsh, Eb. cbn [negb andb]. rewrite andb_false_r, andb_true_r.
-        set (st0 := if cv_iter then match rev (flat (o_jd _ _ b)) with
-                                    | [] => st | j0 :: _ => set_heap_sl st hb (Some (JS j0)) end else st).
-        assert (E0 : erase st0 = erase st)
-          by (unfold st0; destruct cv_iter; auto; destruct (rev (flat (o_jd _ _ b))); auto using erase_set_heap_sl).
-        assert (S0 : shape_ok st0)
-          by (unfold st0; destruct cv_iter; auto; destruct (rev (flat (o_jd _ _ b))); auto using shape_set_heap_sl).
-        destruct (o_fmt _ _ a =? _); [|now apply sim_err].
-        unfold ins. cbn [o_scalar erase_obj set_sl o_jd o_vals o_fmt o_scale].
-        destruct (insert_at (o_vals _ _ a) pos _); [|now apply sim_err].
-        destruct (insert_at (flat (o_jd _ _ a)) pos _); [|now apply sim_err].
-        apply sim_new; auto.
+      + pose proof (shape_getobj _ _ _ _ HS Gb) as Hsh.
+        destruct ((o_scale _ _ a =? 1) && (o_scale _ _ b =? 0)).
+        * rewrite convert_anon_off.
+          destruct (convert_anon_side st hb b HS Hsh) as (st0 & -> & E0 & S0).
+          destruct (o_fmt _ _ a =? _); [|now apply sim_err].
+          unfold ins. cbn [o_scalar erase_obj set_sl o_jd o_vals o_fmt o_scale].
+          destruct (insert_at (o_vals _ _ a) pos _); [|now apply sim_err].
+          destruct (insert_at (flat (o_jd _ _ a)) pos _); [|now apply sim_err].
+          apply sim_new; auto.
+        * destruct ((o_scale _ _ a =? 0) && (o_scale _ _ b =? 1)); [|now apply sim_err].
+          rewrite convert_back_off.
+          destruct (convert_back_side st hb b HS Hsh) as (st0 & -> & E0 & S0).
+          destruct (o_fmt _ _ a =? _); [|now apply sim_err].
+          unfold ins. cbn [o_scalar erase_obj set_sl o_jd o_vals o_fmt o_scale].
+          destruct (insert_at (o_vals _ _ a) pos _); [|now apply sim_err].
+          destruct (insert_at (flat (o_jd _ _ a)) pos _); [|now apply sim_err].
+          apply sim_new; auto.
     - (* Scale *)
       unfold do_scale. rewrite getobj_erase. destruct (getobj st k) as [[h o]|] eqn:G; [|now apply sim_err].
       pose proof (shape_getobj _ _ _ _ HS G) as Hsh.
@@ -905,8 +942,9 @@ End Proofs.
 Definition w_vj (s f : Z) (j : tJ) : tV := [fst j; snd j; s; f].
 Definition w_cv (j : tJ) : tJ := (fst j, snd j + 100).
 Definition w_fmt_to (f : Z) : Z := 0.
-Definition w_step := step tV tJ tJ_eqb w_vj w_cv w_fmt_to true.
-Definition w_run := run tV tJ tJ_eqb w_vj w_cv w_fmt_to true.
+Definition w_cvi (j : tJ) : tJ := (fst j, snd j - 99).
+Definition w_step := step tV tJ tJ_eqb w_vj w_cv w_cvi w_fmt_to true.
+Definition w_run := run tV tJ tJ_eqb w_vj w_cv w_cvi w_fmt_to true.
 Definition w_init := init tV tJ tJ_eqb w_vj.
 Definition w_R : list tJ := [(1, 11); (2, 12); (3, 13); (4, 14)].
 Definition Q_side := mkQ true false false.
